@@ -75,6 +75,8 @@ func WorkerMain(t *testing.T) {
 		if gen == nil {
 			t.Fatalf("no generator for %s", job.Check)
 		}
-		emit(gen(job.Tier, job.Seed, r))
+		if sc := gen(job.Tier, job.Seed, r); sc != nil {
+			emit(sc)
+		}
 	}
 }
